@@ -1,5 +1,53 @@
 /-
-  C16 — the second-generation parser builds a faithful parse tree.  The theorems about the
-  reference parser are shared with C20 (Props/C20.lean).
+  C16 — the second-generation parser builds a faithful parse tree.
+
+  Two layers.  (1) The grammar: the theorems about the reference parser are shared with C20
+  (Props/C20.lean); checks/c16.py ties the reference parser to both real parsers on every run.
+  (2) The flat layout (`src/delta/parser/parse_node.rs`, the `push_*` helpers of parse_tree.rs) and its
+  consumer (`print_xml`, parse_tree_xml.rs): `Layout.encModuleR` lays a module out exactly as the parser
+  pushes it — node variants, the absolute node ids stored in `Item`, `List`, `ListItem`, `ThenElse`,
+  `If`, `Block`, `FunctionImpl`, the private-zone markers and their in-place patching — and
+  checks/c16.py compares it with the real node array of every generated module on every run;
+  `Layout.readDecl` … follow `print_xml` (the node, the five-node context window before it, the ids it
+  stores) and return the tree.  `flat_tree_faithful`: for every module, of any size and nesting, reading
+  the buffer at the entries of the declaration list gives exactly the module's declarations back.
+  So the flat encoding loses nothing (declarations, flags, names, types, statements in order, operands
+  in order, nesting, literal values), and what the consumer pattern-matches is what the producer pushed.
+
+  Not modelled in layer 2: token ids (the model's nodes carry the text / value the real node reaches
+  through its token id), and `MAX_PARSE_NODE_CONTEXT` padding is the five `NoMoreItems` nodes in front.
 -/
 import PenneModel.Props.C20
+import PenneModel.Flat.LayoutModule
+
+namespace Layout
+open Syn
+
+/-- **the flat tree encodes the abstract syntax faithfully** -/
+theorem flat_tree_faithful (ds : List Decl) :
+    (encModuleR ds).2.length = ds.length ∧
+    ∀ p ∈ (encModuleR ds).2.zip ds, ∀ fuel, 2 * p.2.size + 2 ≤ fuel → readDecl fuel (encModuleR ds).1 p.1 = some p.2 :=
+  read_encModule ds
+
+/-- in particular two different modules never have the same flat tree -/
+theorem flat_tree_injective (ds ds' : List Decl) (h : encModuleR ds = encModuleR ds') : ds = ds' := by
+  obtain ⟨hl, hr⟩ := read_encModule ds
+  obtain ⟨hl', hr'⟩ := read_encModule ds'
+  rw [← h] at hl' hr'
+  have hlen : ds.length = ds'.length := by omega
+  apply List.ext_getElem hlen
+  intro k hk hk'
+  have hkr : k < (encModuleR ds).2.length := by omega
+  have m1 : ((encModuleR ds).2[k], ds[k]) ∈ (encModuleR ds).2.zip ds := by
+    rw [List.mem_iff_getElem]
+    exact ⟨k, by simp [List.length_zip]; omega, by simp⟩
+  have m2 : ((encModuleR ds).2[k], ds'[k]) ∈ (encModuleR ds).2.zip ds' := by
+    rw [List.mem_iff_getElem]
+    exact ⟨k, by simp [List.length_zip]; omega, by simp⟩
+  have r1 := hr _ m1 (2 * ds[k].size + 2 + (2 * ds'[k].size + 2)) (by simp only; omega)
+  have r2 := hr' _ m2 (2 * ds[k].size + 2 + (2 * ds'[k].size + 2)) (by simp only; omega)
+  simp only at r1 r2
+  rw [r1] at r2
+  exact Option.some.inj r2
+
+end Layout
